@@ -140,17 +140,27 @@ def events(scn, trace, nm: Names) -> list[str]:
         pnt, name = x.split("/")
         return f"(Some {nm.tid([int(pnt), name])})"
 
+    crashed = False
     for e in trace:
         k = e["e"]
+        if k == "crash":
+            crashed = True
+            continue
         if k == "boot" and e.get("restart"):
             loading = True
-            out.append("ERestart")
+            out.append("ECrash" if crashed else "ERestart")
             continue
         if k == "loaded":
-            if e.get("restart"):
+            if e.get("restart") and not crashed:
                 out.append("ERestartDone")
             loading = False
             continue
+        if k == "restarted" and crashed:
+            sn = e["snap"]
+            out.append(f"EAdopt {q.clist(nm.tid(i) for i in sn['to_hold'])} {q.copt(sn['hold_point'], q.cz)} "
+                       f"{q.cz(sn['stop_point'])} {opt_tid(sn.get('stop_task'))}")
+            out.append("ERestartDone")
+            crashed = False
         if loading and k == "add":
             tracked.add(e["t"]["obj"])
             out.append(f"ERestore {tview(e['t'], nm, icp, start)}")
